@@ -135,6 +135,7 @@ def judge(got, must, opt):
 class CHECK(Check):
     pid = 'C15'
     level = 'exploration'
+    case_timeout = 900      # one case = one statement / plan on every database of the tier
     assumptions = ['sqlite is the engine the per-partition fetches run on; MultipleSteps / MapReduceStep reduce by concatenation (union of the sub-results)',
                    'ties at the window boundary: any maximal choice of the most recent rows is accepted',
                    'for `<` / `<=` conditions there is no lower bound, hence no context window']
